@@ -10,8 +10,9 @@ def sh(cmd, cwd=None, env=None, timeout=3600):
 def main():
     pid, var = sys.argv[1], sys.argv[2]
     checks = sys.argv[3:] or [pid]
-    src = '/tmp/seed_out/%s/%s' % (pid, var)
-    dst = '%s/seeded/%s-%s' % (V, pid, var)
+    src = '%s/%s/%s' % (os.environ.get('SEED_SRC', '/tmp/seed_out'), pid, var)
+    dvar = {'A': 'C', 'B': 'D'}[var] if os.environ.get('SEED_SRC', '').endswith('seed2_out') else var
+    dst = '%s/seeded/%s-%s' % (V, pid, dvar)
     if not os.path.exists(src) and os.path.exists(dst):
         src = dst
     d = tempfile.mkdtemp(prefix='seedchk_')
@@ -47,14 +48,14 @@ def main():
                 prev = {}
         prev.update(res)
         res = prev
-        meta = {'property': pid, 'variant': var, 'author': 'independent sub-agent given only the property text and a scratch worktree',
+        meta = {'property': pid, 'variant': dvar, 'author': 'independent sub-agent given only the property text and a scratch worktree',
                 'needs_to_manifest': open(dst + '/notes.md').read() if os.path.exists(dst + '/notes.md') else '',
                 'confirmed': {'demo_exit_without_change': rc0, 'patch_applies': True, 'baseline_suite_with_change': tests,
                               'demo_exit_with_change': rc1, 'all_confirmed': confirmed, 'repo_head': head,
                               'how': 'scratch copy of /repo eqsig+tests; git apply patch.diff; pytest; demo.py before/after'},
                 'checks_run': res}
         json.dump(meta, open(dst + '/meta.json', 'w'), indent=1)
-        print(pid, var, 'confirmed=%s' % confirmed, {c: (r['exit'], r['violated_clauses'][:4]) for c, r in res.items()})
+        print(pid, dvar, 'confirmed=%s' % confirmed, {c: (r['exit'], r['violated_clauses'][:4]) for c, r in res.items()})
     finally:
         shutil.rmtree(d, ignore_errors=True)
 main()
